@@ -131,3 +131,105 @@ Example C10_example :
                      (k_path, JArr [JStr a]);
                      (k_extensions, JObj ext)]].
 Proof. vm_compute. split; [reflexivity|]. eexists. repeat split; reflexivity. Qed.
+
+(* ------------------------------------------------------------------------
+   Composition with the C04 executor model (Exec/ExecModel.v, read-only).
+   The execution result is no longer an input: it is [execute] of ExecModel,
+   converted by Exec/ResponseExec.v.  Obligated positions ([obligations]) are
+   the response positions the executor completes against a NonNull type with
+   a null result, plus the fields whose resolver raised ResolverError or whose
+   arguments failed to coerce -- defined from schema types, resolver outcomes
+   and completed values along the executor's own traversal, never from the
+   error list.
+   Inherited side condition: [schema_nn_ok] (no NonNull directly inside
+   NonNull; py-gql's schema validation rejects it) -- C04's, for "at most one".
+   Other premises are about the inputs, not the executor: [front_wf] (errors
+   of the validator / variable coercion refer to nodes inside the text),
+   [doc_in_text] (the parsed document's node locations lie in the text: C02).
+   Fixed by the conversion (C04's model does not carry them): coercion /
+   non-null message texts are opaque; error nodes have a source; extensions
+   are the resolver's dict or none; C04's values have no non-finite floats. *)
+From PyGql Require Import Spec.ExecSpec Proofs.ExecTopProofs Exec.ResponseExec Proofs.ResponseExecProofs.
+
+(* the executor's errors are exactly the obligated positions, in order, each
+   once, and the data is null at each of them *)
+Theorem C10_exec_errors_are_obligations :
+  forall sch coerce_args world tyres cfuel fuel d opname vs root dd es,
+    schema_nn_ok sch ->
+    execute sch coerce_args world tyres cfuel fuel d opname vs root = Ok (dd, es) ->
+    let obl := obligations sch coerce_args world tyres cfuel fuel d opname vs root in
+    map e_path es = obl /\ NoDup obl /\
+    forall q, In q obl -> q <> [] /\ at_path dd q = Some PNone.
+Proof. exact exec_errors_are_obligations. Qed.
+Print Assumptions C10_exec_errors_are_obligations.
+
+(* every null in a non-nullable position or at a failed field is matched by
+   exactly one error with that path -- in the response of the composed model,
+   with no hypothesis about the executor; and no error path is anything else *)
+Theorem C10_null_error_match_exec :
+  forall doc fr sch coerce_args world tyres cfuel fuel d opname vs root dd es r,
+    schema_nn_ok sch ->
+    front_early fr = false -> fr_varcoercion fr = [] ->
+    execute sch coerce_args world tyres cfuel fuel d opname vs root = Ok (dd, es) ->
+    pipeline_exec doc fr (Ok (dd, es)) = Ok r ->
+    let obl := map conv_path (obligations sch coerce_args world tyres cfuel fuel d opname vs root) in
+    null_error_match obl r /\
+    (forall q, In q obl ->
+       (exists data, response_data r = Some data /\ jget data q = Some JNull) /\
+       count_path q (map error_path (response_errors r)) = 1) /\
+    (forall p, In (Some p) (map error_path (response_errors r)) -> In p obl).
+Proof. exact null_error_match_exec. Qed.
+Print Assumptions C10_null_error_match_exec.
+
+(* the composed pipeline's response is well formed at every stage, real
+   execution results included; it fails to produce one only when the executor
+   itself lets an exception escape (unexpected resolver exception, value its
+   type cannot serialise) or runs out of fuel *)
+Theorem C10_wf_exec :
+  forall doc fr sch coerce_args world tyres cfuel fuel d opname vs root,
+    front_wf doc fr = true -> doc_in_text (length doc) d ->
+    let ex := execute sch coerce_args world tyres cfuel fuel d opname vs root in
+    match pipeline_exec doc fr ex with
+    | Ok r =>
+        (fr_parse fr = None -> wf_response doc r) /\
+        (fr_parse fr <> None -> wf_response doc (rename_columne r)) /\
+        data_presence (front_early fr) r
+    | Crash k => front_early fr = false /\ fr_varcoercion fr = [] /\ ex = Crash k
+    | OutOfFuel => front_early fr = false /\ fr_varcoercion fr = [] /\ ex = OutOfFuel
+    | Rejected _ _ => False
+    end.
+Proof. exact wf_exec. Qed.
+Print Assumptions C10_wf_exec.
+
+(* non-vacuity: "{ t { s n } }" on Query { t: T }  T { n: Int!  s: String }:
+   the resolver of t.s raises with extensions, t.n resolves to null *)
+Local Open Scope string_scope.
+Example C10_exec_example :
+  let z := str_of_string in
+  let sch := Schema [ (z "String", TScalar SString); (z "Int", TScalar SInt);
+                      (z "T", TObject [MkField (z "n") (z "n") (RNonNull (RNamed (z "Int"))) [];
+                                       MkField (z "s") (z "s") (RNamed (z "String")) []] []);
+                      (z "Query", TObject [MkField (z "t") (z "t") (RNamed (z "T")) []] []) ]
+                    (Some (z "Query")) None None in
+  let fld n l sub := SField None (Name (z n) None) [] [] (match sub with [] => None | _ => Some None end) sub
+                            (Some (l, l + 1)) in
+  let d := Doc [DOperation OpQuery None [] [] None [fld "t" 2 [fld "s" 6 []; fld "n" 8 []]] None] None in
+  let world : world_t := fun p _ _ fname _ =>
+      if str_eqb fname (z "t") then RVal (PDict [(z "n", PNone)])
+      else if str_eqb fname (z "s") then RErr (z "boom") (PDict [(z "code", PInt 7)])
+      else RDefault in
+  let doc := z "{ t { s n } }" in
+  let ex := execute sch (fun _ _ _ => Ok []) world (fun _ => None) 50 10 d None [] PNone in
+  obligations sch (fun _ _ _ => Ok []) world (fun _ => None) 50 10 d None [] PNone
+    = [[PKey (z "t"); PKey (z "s")]; [PKey (z "t"); PKey (z "n")]] /\
+  doc_in_text (length doc) d /\
+  exists r, pipeline_exec doc (Front None [] []) ex = Ok r /\
+            wf_response_b doc r = true /\
+            null_error_match_b [[ResponseModel.PKey (z "t"); ResponseModel.PKey (z "s")];
+                                [ResponseModel.PKey (z "t"); ResponseModel.PKey (z "n")]] r = true /\
+            length (response_errors r) = 2.
+Proof.
+  cbv zeta. split; [vm_compute; reflexivity|]. split.
+  - split; [reflexivity|]. intros k n sels [H|[]]. inversion H; subst. reflexivity.
+  - eexists. split; [vm_compute; reflexivity|]. repeat split; vm_compute; reflexivity.
+Qed.
